@@ -24,15 +24,15 @@ type entry struct {
 	// another case); Site: where in the handler chain the value was obtained when not in the route's
 	// (last) handler (bare application, sites.go). Both qualify the signature (" form=", " site=").
 	Form, Site string
-	kind     kind
-	s        string
-	b        []byte
-	ss       []string
-	mss      map[string]string
-	msl      map[string][]string
-	cp       string
-	step     int
-	dead     bool // already reported
+	kind       kind
+	s          string
+	b          []byte
+	ss         []string
+	mss        map[string]string
+	msl        map[string][]string
+	cp         string
+	step       int
+	dead       bool // already reported
 }
 
 // Canonical, unambiguous renderings (length-prefixed, no escaping: cheap enough to recompute at
